@@ -404,9 +404,12 @@ def run(tier, seed):
         "two partitions built from equal arguments compute bit-identical unsmoothed values (compared with 1e-12 rel.)",
         "float64 vs exact rationals: relative tolerance 1e-9",
     ]
+    from harness.props import dimtype_legs   # legs of Model/DimValues.v + trusted base (workstream dimtype)
+    dimtype_legs.run(rep, PID, tier, seed)
     return rep.finish("proof", ob, trusted_base=core.TRUSTED_BASE_COMMON + [
         "Model/Smoothing.v is hand-written; tied to src/cr/cube/smoothing.py and the smoothed measures "
-        "of matrix/measure.py, stripe/measure.py by this correspondence run only"])
+        "of matrix/measure.py, stripe/measure.py by this correspondence run only",
+        dimtype_legs.trusted_base()])
 
 
 def _replayable(case):
@@ -420,6 +423,9 @@ def _replayable(case):
 def replay(path):
     d = json.load(open(path))
     case = d["violation"]["case"]
+    if isinstance(case, dict) and case.get("dimtype_leg"):   # a case of harness/props/dimtype_legs.py
+        from harness.props import dimtype_legs
+        return dimtype_legs.replay_main(PID, case)
     rep = core.Report(PID, "quick", d.get("seed", 0))
     io = impl_run(case)
     jobs = build_jobs(case, io)
